@@ -630,6 +630,10 @@ class NP2Converter:
         :return:
         """
         if self.check_completed and self.delete_original:
+            if self.nsamples < self.sr.ns:
+                # only the first nsamples samples were converted and checked: the split files don't hold the rest
+                _logger.warning("Only part of the recording was converted, the original file is kept")
+                return
             _logger.info(f"Removing original file in folder {self.ap_file}")
             self.sr.close()
             self.ap_file.unlink()
